@@ -531,6 +531,14 @@ fn random_units(rng: &mut Rng, max_lines: usize, invalid: bool) -> Vec<Vec<u8>> 
         for w in 0..words {
             if invalid && rng.chance(1, 6) {
                 u.push(BAD[rng.below(BAD.len())].to_vec());
+            } else if invalid && rng.chance(1, 6) {
+                // broken UTF-8 in the middle or at the end of a word
+                let mut w0 = WORDS[rng.below(WORDS.len())].as_bytes().to_vec();
+                w0.extend_from_slice(BAD[rng.below(BAD.len())]);
+                if rng.chance(1, 2) {
+                    w0.extend_from_slice(WORDS[rng.below(WORDS.len())].as_bytes());
+                }
+                u.push(w0);
             } else {
                 u.push(WORDS[rng.below(WORDS.len())].as_bytes().to_vec());
             }
@@ -732,6 +740,8 @@ struct TextEval {
     ratio_bits: u32,
     /// `TextDiff::grouped_ops(n) == group_diff_ops(ops, n)` for n = 0..=3
     grouped_consistent: bool,
+    /// `iter_all_changes` driven through nth/skip/step_by/... gives the items plain iteration gives (diffs of at most 120 changes)
+    all_driven: Result<(), String>,
     probes: u64,
     old_toks: Vec<Vec<u8>>,
     new_toks: Vec<Vec<u8>>,
@@ -750,14 +760,21 @@ fn text_eval<T: DiffableStr + ?Sized>(c: &TextCfg, how: DlHow, old: &T, new: &T)
         let per: Vec<Chg> = diff.ops().iter().flat_map(|op| diff.iter_changes(op)).map(conv_change).collect();
         let ot: Vec<Vec<u8>> = diff.old_slices().iter().map(|t| t.as_bytes().to_vec()).collect();
         let nt: Vec<Vec<u8>> = diff.new_slices().iter().map(|t| t.as_bytes().to_vec()).collect();
+        let driven = if all.len() <= 120 {
+            let want: Vec<String> = all.iter().map(|c| format!("{:?}", c)).collect();
+            super::misc::drive_check(|| diff.iter_all_changes(), |c| format!("{:?}", conv_change(c)), &want)
+        } else {
+            Ok(())
+        };
         (all, per, ot, nt, diff.ops().to_vec(), diff.newline_terminated(), diff.algorithm(), diff.ratio().to_bits(),
-         (0..=3).all(|n| diff.grouped_ops(n) == similar::group_diff_ops(diff.ops().to_vec(), n)))
+         (0..=3).all(|n| diff.grouped_ops(n) == similar::group_diff_ops(diff.ops().to_vec(), n)),
+         driven)
     }))
     .ok()?;
     let (direct, _, _, direct_probes) =
         obs::with_world(c.dl, false, |inst| similar::capture_diff_slices_deadline(c.alg, diff.old_slices(), diff.new_slices(), inst));
-    let (all_changes, op_changes, old_toks, new_toks, ops, nlt, alg, ratio_bits, grouped_consistent) = rest;
-    Some(TextEval { ops, nlt, alg, ratio_bits, grouped_consistent, probes, old_toks, new_toks, all_changes, op_changes, direct: direct?, direct_probes })
+    let (all_changes, op_changes, old_toks, new_toks, ops, nlt, alg, ratio_bits, grouped_consistent, all_driven) = rest;
+    Some(TextEval { ops, nlt, alg, ratio_bits, grouped_consistent, all_driven, probes, old_toks, new_toks, all_changes, op_changes, direct: direct?, direct_probes })
 }
 
 fn text_eval_mode(c: &TextCfg, how: DlHow, mode: Mode, old: &[u8], new: &[u8]) -> Option<TextEval> {
@@ -888,6 +905,9 @@ fn check_text(ctx: &mut Ctx, req: &str, c: &TextCfg, old: &[u8], new: &[u8], ev:
                 ctx.violation("C02", req, e);
             }
         }
+    }
+    if let Err(e) = &ev.all_driven {
+        ctx.violation("C13", req, format!("iter_all_changes: {}", e));
     }
     if !ev.grouped_consistent {
         ctx.violation("C12", req, "TextDiff::grouped_ops(n) differs from group_diff_ops(ops, n)".to_string());
@@ -2285,10 +2305,11 @@ pub fn suite_remap(ctx: &mut Ctx) {
             continue;
         }
         let mut rng = case_rng(ctx, 0x4e3a9, i);
-        let base = random_units(&mut rng, 5, false);
-        let edits = rng.below(5);
-        let new = edit_units(&mut rng, &base, edits, false);
         let mode = if i % 2 == 0 { Mode::Str } else { Mode::Bytes };
+        let invalid = mode == Mode::Bytes && i % 4 == 1;
+        let base = random_units(&mut rng, 5, invalid);
+        let edits = rng.below(5);
+        let new = edit_units(&mut rng, &base, edits, invalid);
         ctx.count("remap.random_pairs");
         remap_case(ctx, Kind::DIFF[(i % 5) as usize], ALGS[((i / 5) % 3) as usize], mode, &concat(&base), &concat(&new));
     }
